@@ -217,7 +217,7 @@ def check(run):
                             what = 'column %d..%d outside line %r' % (e['c1'], e['c2'], lines[e['l1'] - 1][:40])
             if what:
                 run.fail('diagnostic %r %s (fault %s in %s)' % (e['msg'], what, c['fault'], c['block']), dict(xml=c['xml'], error=e, fault=c['fault'], block=c['block']),
-                         shape='bad-position:' + re.sub(r'\d+', 'N', what)[:40])
+                         shape='string-literal-line-shift' if c['style'] == 'string-multiline' else 'bad-position:' + re.sub(r'\d+', 'N', what)[:40])
             if e['path'] == c['path']:
                 in_block += 1
             elif e['kind'] == 'error' and c['kind'] not in ('select', 'decl'):
